@@ -61,6 +61,19 @@ func runC12(c *Config, r *Report) {
 	c12R21(ic, r)
 	c12R22(ic, r)
 	c12R23to25(ic, r)
+	c12R26to30(ic, r)
+	{
+		// R12.31 = R01.37 (b), (c): break and continue outside of a loop of the same function are rejected
+		sub := newReport("C01")
+		c01R37(ic, sub)
+		for _, o := range sub.Obls {
+			if strings.HasSuffix(o.Key, "/target-tested") || strings.HasPrefix(o.Key, "scope.push/") {
+				o.Rule = "R12.31"
+				r.add(o)
+			}
+		}
+		r.Errors = append(r.Errors, sub.Errors...)
+	}
 	{
 		// R12.14 = R06.15: an ill-typed program that makes a compile pass fault is rejected with
 		// an error, not with a panic of the host
@@ -263,6 +276,20 @@ func c12R5(ic *IC, r *Report) {
 					}
 				}
 			}
+		}
+		// ... and the conditions visited by a loop over a list of nodes (the case expressions of a
+		// switch without tag: for j, cond := range conds)
+		for _, st := range cc.Body {
+			ast.Inspect(st, func(m ast.Node) bool {
+				if rs, ok := m.(*ast.RangeStmt); ok && rs.Tok == token.DEFINE {
+					if id := identOf(rs.Value); id != nil && id.Name != "_" {
+						if sl, ok := ic.Info.TypeOf(rs.X).(*types.Slice); ok && isNamedPtr(sl.Elem(), "node") {
+							locals[ic.Info.ObjectOf(id)] = true
+						}
+					}
+				}
+				return true
+			})
 		}
 		if len(locals) == 0 {
 			return true
@@ -534,7 +561,6 @@ func c12R2(ic *IC, r *Report) {
 
 // explicit discards accepted today, keyed function -> callee, with the reason.
 var c12Discards = map[string]string{
-	"typecheck.binaryExpr -> typecheck.convertUntyped": "the operands are converted to the other operand's type opportunistically; the mismatch is reported by the check that follows",
 	"isBinCall -> nodeType":                            "a type that cannot be inferred here makes isBinCall false; the error is reported when the call itself is compiled",
 	"itype.refType -> itype.zero":                      "zero() fails only for incomplete types, which refType is completing",
 	"Interpreter.cfg -> Interpreter.cfg":               "recursive early compilation of a constant sub-declaration: its error is reported when the declaration itself is reached",
